@@ -1216,7 +1216,11 @@ emitinst(struct inst **instp, struct inst **instend)
 		for (first = 1; instp != instend; ++instp) {
 			inst = *instp;
 			if (inst->kind == IVARARG) {
-				fputs(", ...", stdout);
+				if (first)
+					fputs("...", stdout);
+				else
+					fputs(", ...", stdout);
+				first = 0;
 				continue;
 			}
 			if (inst->kind != IARG)
